@@ -159,6 +159,23 @@ def scenarios(env, offset):
         return [bad, anon] if k == 2 else [anon, bad, (lambda: Dimension(ex))]
     add("Dimension refused declaration vs anonymous", NEW, lambda n: (lambda: Dimension(tuple([0, 0, 0, 38000 + offset + n] + [0] * (width - 4)))), Dimension._known,
         lambda n: tuple([0, 0, 0, 38000 + offset + n] + [0] * (width - 4)), mixed=refused_dim, may_raise=(ValueError,))
+    # exponents written down before a later Dimension.define (a stored document) racing with the current spelling and
+    # with arithmetic: all three denote one dimension.  The declaration is made when this scenario starts - it is the
+    # last one of its shard, so the other scenarios' tuples keep the width they were built with
+    stale = {}
+
+    def stale_dim(n, k):
+        if "w" not in stale:
+            stale["w"] = len(m.Number.exponents)
+            Dimension.define(f"c20 extra dimension {offset}", f"C20x{offset}")
+        w, e = stale["w"], 39000 + offset + n
+        short = tuple([0, 0, 0, 0, e] + [0] * (w - 5))
+        old_doc, current, arithmetic = (lambda: Dimension(short)), (lambda: Dimension(short + (0,))), (lambda: m.Temperature ** e)
+        return [old_doc, rng_pick(n, [current, arithmetic, old_doc])] if k == 2 else [old_doc, current, arithmetic]
+
+    def rng_pick(n, options):
+        return options[n % len(options)]
+    add("Dimension(exponents stored before a later define)", NEW | DIMOPS | {"Dimension._padded"}, lambda n: (lambda: m.Temperature ** (39000 + offset + n)), mixed=stale_dim)
     return out
 
 
